@@ -79,9 +79,14 @@
      C07_ten_setters_partial, C07_ten_histories, C07_ten_all, C07_statement_ten_all
                               ALL TEN setters: one step, all histories, from every parsed start URL, and in the shape
                               of C07_statement
+     C07_hostname_host_equiv_on, C07_statement_on, C07_real_host_parse_ok_on, C07_statement_model, C07_model_histories
+                              the same three clauses under the host hypothesis restricted to scalar-value strings,
+                              non-empty for Host::parse (host_parse_ok_on), which the REAL host functions satisfy
+                              relative to the first clause of the oracle hypothesis (IdnaOut): C07_statement's clauses
+                              and all histories for the linked model against the Standard with its own host parser
    The gap: host / hostname / pathname on file URLs (class 4 of Known_C07 covers them all), inputs and href
-   values whose scheme is "file", href values whose URL exceeds u32::MAX bytes, and host_parse_ok in place of
-   hosts_agree.
+   values whose scheme is "file", href values whose URL exceeds u32::MAX bytes, and host_parse_ok / host_parse_ok_on
+   (or the concrete host functions under IdnaOut) in place of hosts_agree.
    It is covered by the fixed-seed differential run implementation <-> specification model of the
    harness (a test). *)
 From Coq Require Import String.
